@@ -173,8 +173,10 @@ def c01(res):
         g["props"] = fam_market.big_props(rng)
 
     def bcfgs(i, g):
-        return [gg.base_cfg(s, t, light=True, watchdog_ms=60000) for s in ("bfs", "dfs", "ondemand") for t in ((1, 2) if q else (1, 2, 4))]
-    fam_market.checker_runs(res, "C01", big, bcfgs, ["edges", "subset", "once", "complete"], wd, "c01big")
+        # (deep DFS paths on the big affine graphs: without the recording visitor, see fam_market.deep_dfs)
+        return [gg.base_cfg(s, t, light=True, watchdog_ms=60000, no_visitor=fam_market.deep_dfs(g, s))
+                for s in ("bfs", "dfs", "ondemand") for t in ((1, 2) if q else (1, 2, 4))]
+    fam_market.checker_runs(res, "C01", big, bcfgs, ["edges", "subset", "once", "complete", "evals_once"], wd, "c01big")
     shutil.rmtree(wd, ignore_errors=True)
     # design level: the faithful algorithm spec with all worker interleavings; drift of the real code from it
     small = gg.f1_corpus(rng, 20) + [gg.random_graph(rng, "ck-%d" % i, 3, 4, nprops=rng.randint(1, 2)) for i in range(15 if q else 60)] \
@@ -225,7 +227,8 @@ def c02(res):
         g["props"][1] = dict(kind="sometimes", name="deep_single", sat=[], mode="mod", m=n, r=(n // 2 + 7) % n)
 
     def bcfgs(i, g):
-        return [gg.base_cfg(s, t, light=True, watchdog_ms=60000) for s in ("bfs", "dfs", "ondemand") for t in ((1, 2) if q else (1, 2, 4))]
+        return [gg.base_cfg(s, t, light=True, watchdog_ms=60000, no_visitor=fam_market.deep_dfs(g, s))
+                for s in ("bfs", "dfs", "ondemand") for t in ((1, 2) if q else (1, 2, 4))]
     fam_market.checker_runs(res, "C02", big, bcfgs, ["complete", "verdicts"], wd, "c02big")
     shutil.rmtree(wd, ignore_errors=True)
 
